@@ -137,10 +137,23 @@ def run (j : Json) : Except String Json := do
     let reqs ← (← (← field row "reqs").getArr?).toList.mapM rspecOfJson
     before := before.push (pn, progOf reqs)
   let mut w := Sim.initWith cfg P before.toList
+  -- "between": requests an external controller issues through the providers right before the `at`-th
+  -- step_simulation call (`Reachable` is closed under such programs: `Reachable.ext`)
+  let mut betw : Array (Nat × Nat × Prog Float Unit) := #[]
+  for row in (← (fieldD j "between" (Json.arr #[])).getArr?) do
+    let at_ ← (← field row "at").getNat?
+    let bn ← (← field row "n").getNat?
+    let reqs ← (← (← field row "reqs").getArr?).toList.mapM rspecOfJson
+    betw := betw.push (at_, bn, progOf reqs)
+  let mut marks : Array (Nat × Nat × Int) := #[]      -- (trace length before, node, reported time)
   let mut rets : Array Json := #[]
   let mut poss : Array Json := #[]
   let mut exhausted := false
   for i in [0:n + pre] do
+    for (at_, bn, prog) in betw do
+      if at_ == i then
+        marks := marks.push (w.rtrace.length, bn, Sim.reportedTime cfg w)
+        w := (Sim.runProg cfg bn prog w).1
     let (w', r) := Sim.step cfg P w
     let executedOne := w'.iter > w.iter
     w := w'
@@ -155,8 +168,18 @@ def run (j : Json) : Except String Json := do
       let (kind, key) := cbKey cb
       if table.contains (trigKey n kind key t) then none else some (Json.str (trigKey n kind key t))
     | _ => none)
+  -- the trace with a marker ["ext", node, time] where each externally issued program starts
+  let mut tj : Array Json := #[]
+  let mut idx := 0
+  for o in trace do
+    for (pos, bn, t) in marks do
+      if pos == idx then tj := tj.push (Json.arr #["ext", toJson bn, toJson t])
+    tj := tj.push (jsonOfObs o)
+    idx := idx + 1
+  for (pos, bn, t) in marks do
+    if pos == idx then tj := tj.push (Json.arr #["ext", toJson bn, toJson t])
   pure (Json.mkObj [
-    ("trace", Json.arr (trace.map jsonOfObs).toArray),
+    ("trace", Json.arr tj),
     ("rets", Json.arr rets),
     ("positions", Json.arr poss),
     ("finalPositions", positions cfg w),
